@@ -418,6 +418,15 @@ func (s *Sim) Apply(op Op) *Violation {
 		return s.opBurst(op)
 	case "nftraid":
 		return s.opNFTRaid(op)
+	case "slashheight":
+		// record, on chain A, a consensus state of chain B at height 47 (0x2f, the byte of '/')
+		on := s.chain(op.A)
+		of := s.otherChain(on, op.B)
+		if !s.W.Links[on.Name][of.Name] || of.Height >= 47 {
+			return nil
+		}
+		of.CommitEmpty(int(46 - of.Height))
+		return s.opUpdate(Op{K: "update", A: op.A, B: op.B})
 	case "round":
 		return s.opRound(op)
 	case "cleanflow":
